@@ -378,6 +378,41 @@ fn lib_elements(o: &mut Outcome, seed: u64) {
             o.violate("challenge-ignores-context-byte", "ChallengeBuilder::with_bytes", format!("flipping a bit of context byte {} leaves the challenge unchanged", i));
         }
     }
+    // several byte strings fed to one builder (a session id and a transcript, say): every byte
+    // of every one of them reaches the challenge, whichever call fed it, and so does their order
+    {
+        let parts: Vec<Vec<u8>> = (0..3).map(|k| s.bytes(8 + 13 * k)).collect();
+        let run = |ps: &Vec<Vec<u8>>, via_with: bool| -> Scalar {
+            let mut b = ChallengeBuilder::new().with(&a);
+            for p in ps {
+                if via_with {
+                    b = b.with_bytes(p);
+                } else {
+                    b.consume_bytes(p);
+                }
+            }
+            b.finish().to_scalar()
+        };
+        for via_with in [true, false] {
+            let base = run(&parts, via_with);
+            for k in 0..parts.len() {
+                for pos in [0usize, parts[k].len() - 1, s.usize(parts[k].len())] {
+                    let mut ps = parts.clone();
+                    ps[k][pos] ^= 1 << s.usize(8);
+                    o.bump("fault.tamper.context-byte");
+                    o.events += 1;
+                    if run(&ps, via_with) == base {
+                        o.violate("challenge-ignores-context-byte", &format!("ChallengeBuilder::{}(#{} of several)", if via_with { "with_bytes" } else { "consume_bytes" }, k), format!("byte {} of byte string #{} of three fed to one builder does not reach the challenge", pos, k));
+                    }
+                }
+            }
+            let mut swapped = parts.clone();
+            swapped.swap(0, 2);
+            if run(&swapped, via_with) == base {
+                o.violate("challenge-ignores-order", "ChallengeBuilder(byte strings)", "feeding the same byte strings in another order gives the same challenge".into());
+            }
+        }
+    }
     // length extension of the context
     let mut c3 = ctx.clone();
     c3.push(0);
